@@ -101,6 +101,10 @@ def c42_runs(tier):
         if not q:
             runs.append(McRun(B, 'pool', dict(cs=cs, ss=ss, t0=allp, t1=allp, t2=allp, sym=1), bound=2, budget=300))
         runs.append(McRun(B, 'nolock', dict(cs=cs, ss=ss, depth=5 if q else 6), bound=0, budget=60))
+    # allocator cleared while quiescent (retired slabs, no free chunk), then concurrent allocations: slab re-use
+    for cs, ss, warm in ((8, 8, 2), (8, 16, 3)):
+        runs.append(McRun(B, 'pool', dict(cs=cs, ss=ss, warm=warm, t0='a|aa|ad', t1='a|aa|ad'), bound=2 if q else 3, budget=60 if q else 200))
+    runs.append(McRun(B, 'pool', dict(cs=8, ss=8, warm=2, t0='aa', t1='aa'), bound=1, mode='tsan', budget=60 if q else 200))
     tp = 'a|ad|ada' if q else allp
     runs.append(McRun(B, 'pool', dict(cs=8, ss=16, t0=tp, t1=tp), bound=2, mode='tsan', budget=90 if q else 300))
     runs.append(McRun(B, 'pool', dict(cs=16, ss=64, t0='aaD', t1='ada', t2='ad'), bound=1, mode='tsan', budget=60 if q else 300))
